@@ -77,8 +77,9 @@ GY = 0x4FE342E2FE1A7F9B8EE7EB4A7C0F9E162BCE33576B315ECECBB6406837BF51F5
 
 
 def regen(ctx):
-    from translate import c14_tables
+    from translate import c14_ast, c14_tables
     c14_tables.regen(ctx)
+    c14_ast.regen(ctx)          # Gen/C14Source.v: the anchored functions as Python-subset terms
 
 
 # ----------------------------------------------------------------------------- back ends
@@ -982,6 +983,25 @@ def run_ec(ctx, mods, batch):
     batch.defer([f'ecc_dh secp256r1 {coq_z(d)} {coq_bytes(coord_bytes(pt[0]))} {coq_bytes(coord_bytes(pt[1]))}' for d, pt, _ in small]
                 + [f'ecc_public secp256r1 {coq_z(d)}' for d in small_pub], fin_small)
 
+    # ECDH symmetry of the MODEL itself (no implementation involved): dh(a, b.G) = dh(b, a.G) by
+    # vm_compute on a family of scalars - a few tiny ones in the quick tier, every pair up to 12
+    # and some 16..24-bit ones in the thorough tier
+    if ctx.quick():
+        sym = [(2, 3), (5, 7), (1, 6)]
+    else:
+        sym = [(a, b) for a in range(1, 13) for b in range(a, 13)] + [(rng.range(2 ** 15, 2 ** 24), rng.range(2 ** 15, 2 ** 24)) for _ in range(6)]
+
+    def fin_sym(model):
+        for (a, b), mv in zip(sym, model):
+            ctx.count('ec.model.symmetry')
+            ctx.case(('model-sym', a, b), True, None)
+            left, right = mv
+            if model_dh(left) != model_dh(right) or model_dh(left)[0] != 'ok':
+                ctx.disagree('Coq model: ecdh a (b.G) vs ecdh b (a.G)', {'a': a, 'b': b}, model_dh(left), model_dh(right))
+    batch.defer([f"match public_key secp256r1 {coq_z(a)}, public_key secp256r1 {coq_z(b)} with "
+                 f"| Affine xa ya, Affine xb yb => (ecdh secp256r1 {coq_z(a)} xb yb, ecdh secp256r1 {coq_z(b)} xa ya) "
+                 f"| _, _ => (InvalidKey, InvalidKey) end" for a, b in sym], fin_sym, slow=not ctx.quick())
+
     # larger private keys: 32 / 48 bits in the quick tier, full size in the thorough tier
     large = []
     mid = [d for d in scalars if 2 ** 24 <= d < 2 ** 48]
@@ -1306,6 +1326,150 @@ def run_rpa(ctx, mods, batch):
                  for irk, tb, keys, _ in sub], fin)
 
 
+# ----------------------------------------------------------------------------- resolver histories
+def ref_ah(lib, k, prand):
+    """ah computed directly with the OpenSSL-based e (independent of crypto.ah)"""
+    return lib.e(k, prand + bytes(13))[:3]
+
+
+def resolver_history_oracle(mods, keys, addrs):
+    """ONE AddressResolver per back end for the whole sequence.  After every call the result must
+    be the identity of the FIRST key K of the list with ah(K, prand(addr)) == hash(addr) (computed
+    here with the other back end's e), None when there is none: a pure function of (list, address).
+    Returns ((index, description) or None, list of resolved indexes of the built-in run)."""
+    from bumble import helpers
+    from bumble.hci import Address
+    from bumble.smp import AddressResolver
+    lib = mods['cryptography']
+    ids = [Address(bytes([i + 1, 0x10, 0x20, 0x30, 0x40, 0x50 + i]), Address.PUBLIC_DEVICE_ADDRESS if i % 2 else Address.RANDOM_DEVICE_ADDRESS)
+           for i in range(len(keys))]
+    bad = None
+    outs = []
+    resolvers = {}
+    for name, mod in mods.items():
+        with use_backend(mod):
+            resolvers[name] = AddressResolver([(k, ids[j]) for j, k in enumerate(keys)])
+    for i, ab in enumerate(addrs):
+        want = next((j for j, k in enumerate(keys) if ref_ah(lib, k, ab[3:6]) == ab[0:3]), None)
+        got = {}
+        for name, mod in mods.items():
+            with use_backend(mod):
+                addr = Address(ab, Address.RANDOM_DEVICE_ADDRESS)
+                r = resolvers[name].resolve(addr)
+                got[name] = None if r is None else next((j for j in range(len(keys)) if bytes(ids[j]) == bytes(r)), -1)
+                v = [bool(helpers.verify_rpa_with_irk(addr, k)) for k in keys]
+                if bad is None and v != [ref_ah(lib, k, ab[3:6]) == ab[0:3] for k in keys]:
+                    bad = (i, f'call {i}: {name}: verify_rpa_with_irk({ab.hex()}) over the key list gives {v}')
+        outs.append(got['builtin'])
+        if bad is None:
+            for name in mods:
+                if got[name] != want:
+                    bad = (i, f'call {i} on one {name} AddressResolver: address {ab.hex()} (prand {ab[3:6].hex()}) resolves to key '
+                              f'{got[name]}, expected {want} (the first key whose ah(key, prand) equals the hash part)')
+                    break
+    return bad, outs
+
+
+def gen_resolver_history(rng, lib):
+    nk = rng.range(1, 3)
+    keys = [rng.bytes(16) for _ in range(nk)]
+    outsiders = [rng.bytes(16) for _ in range(2)]
+
+    def prand():
+        b = rng.bytes(3)
+        return b[:2] + bytes([(b[2] & 0x3F) | 0x40])
+
+    p0 = prand()
+    addrs = []
+    first = rng.below(nk)
+    addrs.append(ref_ah(lib, keys[first], p0) + p0)               # a genuine RPA populates any cache
+    for _ in range(rng.range(2, 8)):
+        r = rng.below(9)
+        p = p0 if rng.chance(2, 3) else prand()
+        if r <= 1:
+            addrs.append(ref_ah(lib, rng.choice(outsiders), p) + p)          # same prand, hash under an unrelated key
+        elif r == 2:
+            addrs.append(ref_ah(lib, rng.choice(keys), p) + p)               # genuine RPA of some listed key
+        elif r == 3:
+            addrs.append(ref_ah(lib, keys[first], p0) + prand())             # known hash, other prand
+        elif r == 4:
+            addrs.append(addrs[0])                                           # repeat
+        elif r == 5:
+            h_ = bytearray(ref_ah(lib, keys[first], p)); h_[rng.below(3)] ^= 1 << rng.below(8)
+            addrs.append(bytes(h_) + p)                                      # one hash bit flipped
+        elif r == 6:
+            addrs.append(ref_ah(lib, keys[-1], p) + p)                       # the last key of the list
+        elif r == 7:
+            addrs.append(rng.bytes(3) + p)                                   # random hash
+        else:
+            addrs.append(ref_ah(lib, rng.choice(outsiders), p0) + p0)
+    if rng.chance(1, 3):                       # invalid first, then the genuine one (negative caching)
+        addrs = [ref_ah(lib, outsiders[0], p0) + p0] + addrs
+    return keys, addrs
+
+
+def run_rpa_histories(ctx, mods, batch):
+    rng = ctx.rng
+    lib = mods['cryptography']
+    hist = []
+    # the shape of seeded change C14-d: genuine RPA of A, then the same prand hashed under B
+    ka, kb = rng.bytes(16), rng.bytes(16)
+    p = b'\x11\x22\x55'
+    hist.append(([ka], [ref_ah(lib, ka, p) + p, ref_ah(lib, kb, p) + p, ref_ah(lib, ka, p) + p]))
+    hist.append(([ka, kb], [ref_ah(lib, ka, p) + p, ref_ah(lib, kb, p) + p, ref_ah(lib, kb, p) + p, ref_ah(lib, ka, p) + p]))
+    for _ in range(ctx.n(30, 400)):
+        hist.append(gen_resolver_history(rng, lib))
+    outs_of = []
+    for h, (keys, addrs) in enumerate(hist):
+        bad, outs = resolver_history_oracle(mods, keys, addrs)
+        outs_of.append(outs)
+        rp = {'kind': 'resolver-history', 'keys': [hx(k) for k in keys], 'addrs': [hx(a) for a in addrs]}
+        ctx.case(('resolver-history', tuple(keys), tuple(addrs)), len(addrs) > 1, rp if h == 1 else None)
+        ctx.count('rpa.history.sequences')
+        ctx.count('rpa.history.calls', len(addrs))
+        if bad:
+            rp['addrs'] = rp['addrs'][:bad[0] + 1]
+            ctx.violation('resolver-history:depends-on-earlier-calls' if bad[0] > 0 else 'resolver-history:wrong-result', bad[1], rp)
+    sub = list(range(min(len(hist), ctx.n(10, 60))))
+
+    def fin(model):
+        for h, mv in zip(sub, model):
+            ctx.count('rpa.history.model')
+            mo = [None if v is None else v[1] for v in mv]
+            if mo != outs_of[h]:
+                ctx.disagree('AddressResolver.resolve on one resolver (sequence of calls)',
+                             {'keys': [hx(k) for k in hist[h][0]], 'addrs': [hx(a) for a in hist[h][1]]}, mo, outs_of[h])
+    batch.defer([f'resolve_history e_total {coq_list(hist[h][0], coq_bytes)} {coq_list(hist[h][1], coq_bytes)}' for h in sub], fin)
+
+    # Address.generate_private_address with a controlled prand source: two keys draw the same prand
+    from bumble.hci import Address
+    from bumble.smp import AddressResolver
+    for _ in range(ctx.n(10, 100)):
+        ka, kb, tb = rng.bytes(16), rng.bytes(16), rng.bytes(6)
+        ida = Address(bytes([1, 2, 3, 4, 5, 6]), Address.RANDOM_DEVICE_ADDRESS)
+        idb = Address(bytes([9, 8, 7, 6, 5, 4]), Address.RANDOM_DEVICE_ADDRESS)
+        for name, mod in mods.items():
+            with use_backend(mod), fixed_tokens(rng) as tokens:
+                tokens.token_bytes = lambda n, _tb=tb: _tb[:n]
+                a_addr = Address.generate_private_address(ka)
+                b_addr = Address.generate_private_address(kb)
+                only_a = AddressResolver([(ka, ida)])
+                both = AddressResolver([(ka, ida), (kb, idb)])
+                r1, r2 = only_a.resolve(a_addr), only_a.resolve(b_addr)
+                r3, r4, r5 = both.resolve(a_addr), both.resolve(b_addr), both.resolve(a_addr)
+                ctx.case(('rpa-same-prand', ka, kb, tb, name), True, None)
+                ctx.count('rpa.history.same_prand_two_keys')
+                collide = ref_ah(lib, ka, bytes(b_addr)[3:6]) == bytes(b_addr)[0:3]
+                ok = (r1 is not None and bytes(r1) == bytes(ida) and (r2 is None or collide)
+                      and r3 is not None and bytes(r3) == bytes(ida)
+                      and r4 is not None and (bytes(r4) == bytes(idb) or collide)
+                      and r5 is not None and bytes(r5) == bytes(ida))
+                if not ok:
+                    ctx.violation(f'rpa:same-prand-two-keys:{name}',
+                                  f'{name}: RPAs of two keys generated with the same prand: resolutions {[None if r is None else bytes(r).hex() for r in (r1, r2, r3, r4, r5)]}',
+                                  {'kind': 'resolver-history', 'keys': [hx(ka)], 'addrs': [hx(bytes(a_addr)), hx(bytes(b_addr))]})
+
+
 # ----------------------------------------------------------------------------- driver entry points
 def _show(o):
     def one(v):
@@ -1355,6 +1519,9 @@ def oracle_one(mods, r):
         if 'expect' in r and res['builtin'] != ['ok', list(bytes.fromhex(r['expect']))]:
             return f'ECDH: {_show(res["builtin"])} is not the expected {r["expect"]}'
         return None
+    if kind == 'resolver-history':
+        bad, _ = resolver_history_oracle(mods, [bytes.fromhex(k) for k in r['keys']], [bytes.fromhex(a) for a in r['addrs']])
+        return bad[1] if bad else None
     if kind == 'dh-history':
         calls = [(int(x, 16), int(y, 16), w) for x, y, w in r['calls']]
         bad, _ = history_oracle(mods, int(r['d'], 16), calls, r.get('touch_xy', False))
@@ -1460,6 +1627,7 @@ def run(ctx):
     run_cmac_boundary(ctx, mods, batch)
     run_toolbox(ctx, mods, batch)
     run_rpa(ctx, mods, batch)
+    run_rpa_histories(ctx, mods, batch)
     run_ec_steps(ctx, mods, batch)
     run_ec(ctx, mods, batch)
     run_ec_histories(ctx, mods, batch)
@@ -1517,6 +1685,13 @@ def search(ctx):
         if bad:
             ctx.violation('dh-history:' + ('off-curve-accepted' if 'accepts' in bad[1] else 'depends-on-earlier-calls'), bad[1],
                           history_replay(d, calls[:bad[0] + 1], False))
+            return
+    for _ in range(300):
+        keys, addrs = gen_resolver_history(rng, mods['cryptography'])
+        bad, _ = resolver_history_oracle(mods, keys, addrs)
+        if bad:
+            ctx.violation('resolver-history:depends-on-earlier-calls', bad[1],
+                          {'kind': 'resolver-history', 'keys': [hx(k) for k in keys], 'addrs': [hx(a) for a in addrs[:bad[0] + 1]]})
             return
     for _ in range(2000):
         r = {'kind': 'rpa', 'irk': hx(rng.bytes(16)), 'tokens': hx(rng.bytes(6))}
